@@ -25,7 +25,7 @@ TOKENS = [
     '\\section[b]{a}', '\\label{a}', '\\cup', '\\noindent',
     '\\begin{itemize}', '\\end{itemize}', '\\begin{a}', '\\end{a}',
     '\\begin{verbatim}', '\\end{verbatim}', '\\begin{equation}',
-    '\\end{equation}', '\\', 'é', '&', '#', '~',
+    '\\end{equation}', '\\', 'é', '&', '#', '~', '{a }', '[a]',
 ]
 # tokens that leave the C08/C16 input domain (NUL/DEL, bare signature cmds)
 HOSTILE_TOKENS = ['\x00', '\x7f', '\\def', '\\textbf', '\\section', '\\label',
@@ -52,7 +52,7 @@ def random_string(rng, alphabet, minlen, maxlen):
 
 # --- side conditions of C08 / C16 (DESIGN 3.2) -----------------------------
 _SIG_OK = re.compile(
-    r'\\(?:def(?![A-Za-z*])\\[A-Za-z]+\{|textbf(?![A-Za-z*])\{|'
+    r'\\(?:def(?![A-Za-z*])\\(?!(?:left|right|big|Big|bigg|Bigg)\{)[A-Za-z]+\{|textbf(?![A-Za-z*])\{|'
     r'section(?![A-Za-z*])(?:\[[^\]\[{}]*\])?\{|label(?![A-Za-z*])\{)')
 _SIG_ANY = re.compile(r'\\(?:def|textbf|section|label)(?![A-Za-z*])')
 _ESC_RUN = re.compile(r'\\+')
